@@ -108,7 +108,7 @@ Proof.
       * intros [v [Hv Hn]]. apply in_app_or in Hv. destruct Hv as [Hv|[Hv|[]]].
         -- exists v. split; [exact Hv|]. intros q Hq. apply Hn, in_or_app. left; exact Hq.
         -- subst r. simpl in Hwr. rewrite (Hn w) in Hwr; [discriminate|]. apply in_or_app. left. apply I1, Hw.
-  - (* r is admitted *)
+  - (* r enters the window *)
     pose proof (existsb_false_forall _ _ E) as Hnw. simpl in Hnw.
     assert (Hr_nd : nondom_in (P ++ [r]) (snd r)).
     { intros q Hq. apply in_app_or in Hq. destruct Hq as [Hq|[<-|[]]]; [|apply dom_irrefl].
